@@ -37,6 +37,110 @@ pub struct Which {
 pub struct Tracked {
   pub g: GGM,
   pub punctured: BTreeSet<u8>,
+  /// the generators re-implemented in the harness, present only when they were shown
+  /// (on the fresh key) to reproduce the library's values; enables the derivability oracle
+  pub closure: Option<Prg>,
+}
+
+/// Re-implementation of the length-doubling generators from their (static) keys.
+/// It pins the generator's Strobe transcript, so it is used only behind a sanity
+/// guard: if it does not reproduce the library's own values on the fresh key the
+/// derivability oracle is skipped (and the evidence says so) instead of raising alarms.
+#[derive(Clone)]
+pub struct Prg {
+  keys: Vec<[u8; 32]>,
+}
+
+impl Prg {
+  pub fn step(&self, which: usize, input: &[u8]) -> Val {
+    use strobe_rs::{SecParam, Strobe};
+    let mut t = Strobe::new(b"ggm eval (ppoprf)", SecParam::B128);
+    t.key(&self.keys[which], false);
+    t.ad(input, false);
+    t.meta_ad(&32u32.to_le_bytes(), false);
+    let mut out = [0u8; 32];
+    t.prf(&mut out, false);
+    out
+  }
+
+  /// every value derivable from `seed` by walks of exactly `len` generator steps
+  pub fn level(&self, seeds: &[Val]) -> Vec<Val> {
+    let mut out = Vec::with_capacity(seeds.len() * self.keys.len());
+    for s in seeds {
+      for w in 0..self.keys.len() {
+        out.push(self.step(w, s));
+      }
+    }
+    out
+  }
+
+  /// build it for a FRESH key and check it against the library's values
+  pub fn for_fresh_key(g: &GGM, orig: &[Val]) -> Option<Prg> {
+    let keys = g.verif_prg_keys();
+    if keys.len() != 2 {
+      return None;
+    }
+    let prg = Prg { keys };
+    for (covered, depth, seed) in g.verif_retained_nodes() {
+      if seed.len() != 32 || depth > 8 {
+        return None;
+      }
+      let mut s = [0u8; 32];
+      s.copy_from_slice(&seed);
+      let mut lvl = vec![s];
+      for _ in depth..8 {
+        lvl = prg.level(&lvl);
+      }
+      let got: BTreeSet<Val> = lvl.into_iter().collect();
+      let want: BTreeSet<Val> = covered.iter().map(|x| orig[*x as usize]).collect();
+      if got != want {
+        return None;
+      }
+    }
+    Some(prg)
+  }
+}
+
+/// C11 derivability oracle: no value of a punctured input is reachable from any
+/// retained seed by ANY walk of up to 8 generator steps (whatever the node's label says).
+pub fn check_derivability(t: &Tracked, orig: &[Val], st: &mut Stats) -> Result<(), String> {
+  let prg = match &t.closure {
+    Some(p) => p,
+    None => {
+      st.note("derivability oracle skipped: the harness's re-implementation of the generators does not reproduce the library's values on a fresh key".into());
+      return Ok(());
+    }
+  };
+  if t.punctured.is_empty() {
+    return Ok(());
+  }
+  let secret: std::collections::HashMap<Val, u8> = t.punctured.iter().map(|x| (orig[*x as usize], *x)).collect();
+  st.evals(1);
+  st.class("derivability-closure-checked");
+  for (covered, depth, seed) in t.g.verif_retained_nodes() {
+    if seed.len() != 32 {
+      continue;
+    }
+    let mut s = [0u8; 32];
+    s.copy_from_slice(&seed);
+    let mut lvl = vec![s];
+    for steps in 0..=8usize {
+      for v in &lvl {
+        if let Some(x) = secret.get(v) {
+          return Err(format!(
+            "the value of punctured input {x} can be recomputed from retained key material: {steps} generator step(s) from the seed of the retained node of depth {depth} that covers {:?}{} (punctured set {:?})",
+            &covered[..covered.len().min(8)],
+            if covered.len() > 8 { " ..." } else { "" },
+            t.punctured.iter().collect::<Vec<_>>()
+          ));
+        }
+      }
+      if steps < 8 {
+        lvl = prg.level(&lvl);
+      }
+    }
+  }
+  Ok(())
 }
 
 fn describe(p: &BTreeSet<u8>) -> String {
@@ -198,12 +302,17 @@ pub fn explore_lattice(d: &[u8], first: usize, which: Which, st: &mut Stats) -> 
   scope.extend_from_slice(&SPREAD);
   scope.sort();
   scope.dedup();
+  let closure = if which.c11 { Prg::for_fresh_key(&g, &orig) } else { None };
   let root = Tracked {
     g,
     punctured: BTreeSet::new(),
+    closure,
   };
   let mut start = root.clone();
   step(&mut start, d[first], &orig, which, &scope, st)?;
+  if which.c11 {
+    check_derivability(&start, &orig, st)?;
+  }
   let mut level: HashMap<u32, Tracked> = HashMap::new();
   level.insert(1 << first, start);
   let (mut states, mut transitions) = (0u64, 1u64);
@@ -221,6 +330,9 @@ pub fn explore_lattice(d: &[u8], first: usize, which: Which, st: &mut Stats) -> 
         let mut c = t.clone();
         step(&mut c, *x, &orig, which, &scope, st)?;
         transitions += 1;
+        if which.c11 && (c.punctured.len() <= 3 || (mask as usize + i) % 13 == 0) {
+          check_derivability(&c, &orig, st)?;
+        }
         // deep transitions are what the repository's tests never reach
         if mask.count_ones() >= 1 {
           st.nontrivial(&(d, mask, i));
